@@ -3,62 +3,61 @@ From PV Require Import Base.Prelude Model.Ping Model.PingTrace Proofs.Ping.
 Open Scope N_scope.
 
 (* ------------------------------------------------------------------ *)
-(* shape of one step *)
-
-Ltac step_cases H :=
-  match type of H with
-  | step _ ?s ?e = Ok ?s1 =>
-      destruct e as [p ok| j | | p | p]; cbn [step] in H;
-      [ destruct (pget (pings s) p) eqn:Ep; [discriminate|]; cbv zeta in H; inversion H; subst s1; clear H
-      | destruct (tget (tbl s) j) as [q|] eqn:Eq;
-        [ destruct (pget (pings s) q) as [pgq|] eqn:Epq; [|discriminate];
-          destruct (p_closed pgq) eqn:Ecl; [discriminate|]; inversion H; subst s1; clear H
-        | inversion H; subst s1; clear H ]
-      | inversion H; subst s1; clear H
-      | destruct (pget (pings s) p) as [pgp|] eqn:Ep; [|discriminate];
-        destruct (p_phase pgp) eqn:Eph; [|discriminate]; inversion H; subst s1; clear H
-      | destruct (pget (pings s) p) as [pgp|] eqn:Ep; [|discriminate];
-        destruct (p_phase pgp) eqn:Eph; [|discriminate];
-        destruct (p_closed pgp || p_fired pgp) eqn:Erdy; [|discriminate]; inversion H; subst s1; clear H ]
-  end.
+(* shape of one step (tactic step_cases: Proofs/Ping.v) *)
 
 Lemma step_cnt fx s e s' : step fx s e = Ok s' ->
-  cnt s' = cnt s + (match e with Begin _ _ => 1 | _ => 0 end) /\
-  next s' = (match e with Begin _ _ => u16 (next s + 1) | _ => next s end).
+  cnt s' = cnt s + (match e with Begin _ => 1 | BulkFail n => n | _ => 0 end) /\
+  next s' = (match e with Begin _ => u16 (next s + 1) | BulkFail n => u16 (next s + n) | _ => next s end).
 Proof. intros H. step_cases H; cbn; split; try reflexivity; lia. Qed.
 
 (* what a call record of the new state is *)
 Lemma step_pget fx s e s' : step fx s e = Ok s' ->
-  forall q pg', pget (pings s') q = Some pg' ->
-    (exists pg, pget (pings s) q = Some pg /\ p_id pg' = p_id pg /\ p_seq pg' = p_seq pg /\
-                (p_phase pg' = Waiting -> p_phase pg = Waiting))
-    \/ (pget (pings s) q = None /\ (exists ok, e = Begin q ok) /\ p_id pg' = next s /\ p_seq pg' = cnt s).
+  forall q0 pg', pget (pings s') q0 = Some pg' ->
+    (exists pg, pget (pings s) q0 = Some pg /\ p_id pg' = p_id pg /\ p_seq pg' = p_seq pg /\
+                (outstanding pg' = true -> outstanding pg = true))
+    \/ (pget (pings s) q0 = None /\ e = Begin q0 /\ p_id pg' = next s /\ p_seq pg' = cnt s).
 Proof.
   intros H q0 pg' Hq. step_cases H; cbn [pings set_pings] in Hq; rewrite ?pget_pset in Hq.
   - destruct (Nat.eqb_spec q0 p).
-    + subst. inversion Hq; subst. right. cbn. eauto 6.
+    + subst. inversion Hq; subst. right. cbn. auto.
     + left. eauto 6.
+  - destruct (Nat.eqb_spec q0 p).
+    + subst. inversion Hq; subst. left. exists pgp. cbn. unfold outstanding. rewrite Eph. auto.
+    + left. eauto 6.
+  - destruct (Nat.eqb_spec q0 p).
+    + subst. inversion Hq; subst. left. exists pgp. cbn. repeat split; auto; try discriminate.
+    + left. eauto 6.
+  - left. eauto 6.
   - destruct (Nat.eqb_spec q0 q).
     + subst. inversion Hq; subst. left. exists pgq. cbn. auto.
     + left. eauto 6.
   - left. eauto 6.
   - left. eauto 6.
   - destruct (Nat.eqb_spec q0 p).
-    + subst. inversion Hq; subst. left. exists pgp. cbn. auto.
+    + subst. inversion Hq; subst. left. exists pgp. cbn. unfold outstanding. rewrite Eph. auto.
     + left. eauto 6.
   - destruct (Nat.eqb_spec q0 p).
     + subst. inversion Hq; subst. left. exists pgp. cbn. repeat split; auto; try discriminate.
     + left. eauto 6.
 Qed.
 
-(* calls never disappear, keep their id and seq, and never go back to waiting *)
+(* calls never disappear, keep their id and seq, and never leave Returned *)
 Lemma step_pget_fwd fx s e s' : step fx s e = Ok s' ->
-  forall q pg, pget (pings s) q = Some pg ->
-    exists pg', pget (pings s') q = Some pg' /\ p_id pg' = p_id pg /\ p_seq pg' = p_seq pg /\
+  forall q0 pg, pget (pings s) q0 = Some pg ->
+    exists pg', pget (pings s') q0 = Some pg' /\ p_id pg' = p_id pg /\ p_seq pg' = p_seq pg /\
                 (forall r, p_phase pg = Returned r -> p_phase pg' = Returned r).
 Proof.
   intros H q0 pg Hq. step_cases H; cbn [pings set_pings]; rewrite ?pget_pset.
   - destruct (Nat.eqb_spec q0 p); [congruence|]. eauto 6.
+  - destruct (Nat.eqb_spec q0 p).
+    + subst. rewrite Ep in Hq. inversion Hq; subst. eexists. split; [reflexivity|]. cbn.
+      repeat split; auto. intros r Hr. congruence.
+    + eauto 6.
+  - destruct (Nat.eqb_spec q0 p).
+    + subst. rewrite Ep in Hq. inversion Hq; subst. eexists. split; [reflexivity|]. cbn.
+      repeat split; auto. intros r Hr. congruence.
+    + eauto 6.
+  - eauto 6.
   - destruct (Nat.eqb_spec q0 q).
     + subst. rewrite Epq in Hq. inversion Hq; subst. eexists. split; [reflexivity|]. cbn. auto.
     + eauto 6.
@@ -96,15 +95,14 @@ Proof.
   intros [Hn Hid Hinj] H. destruct (step_cnt _ _ _ _ H) as [Hc Hnx].
   pose proof (step_pget _ _ _ _ H) as Hp.
   constructor.
-  - rewrite Hnx, Hc. destruct e; rewrite ?N.add_0_r; auto.
-    unfold u16. rewrite Hn. generalize (cnt s); intros c. lia.
+  - rewrite Hnx, Hc. destruct e; rewrite ?N.add_0_r; auto; unfold u16; rewrite Hn;
+      generalize (cnt s); intros c; lia.
   - intros q pg' Hq. destruct (Hp _ _ Hq) as [(pg & Hq0 & Hi & Hs & _)|(Hq0 & Hq0' & Hi & Hs)].
     + destruct (Hid _ _ Hq0) as [A B]. rewrite Hi, Hs. split; [exact A|]. rewrite Hc. lia.
-    + rewrite Hi, Hs, Hn. split; [reflexivity|]. rewrite Hc.
-      destruct Hq0' as [ok0 ->]. lia.
+    + rewrite Hi, Hs, Hn. split; [reflexivity|]. rewrite Hc. subst e. lia.
   - intros q1 q2 pg1 pg2 H1 H2 Es.
-    destruct (Hp _ _ H1) as [(pa & Ha & _ & Hsa & _)|(Ha & [oka Ea] & _ & Hsa)];
-    destruct (Hp _ _ H2) as [(pb & Hb & _ & Hsb & _)|(Hb & [okb Eb] & _ & Hsb)].
+    destruct (Hp _ _ H1) as [(pa & Ha & _ & Hsa & _)|(Ha & Ea & _ & Hsa)];
+    destruct (Hp _ _ H2) as [(pb & Hb & _ & Hsb & _)|(Hb & Eb & _ & Hsb)].
     + eapply Hinj; eauto. congruence.
     + destruct (Hid _ _ Ha) as [_ L]. lia.
     + destruct (Hid _ _ Hb) as [_ L]. lia.
@@ -126,7 +124,7 @@ Qed.
 
 Lemma ids_distinct n s q1 q2 pg1 pg2 : Inv2 n s -> young s -> q1 <> q2 ->
   pget (pings s) q1 = Some pg1 -> pget (pings s) q2 = Some pg2 ->
-  p_phase pg1 = Waiting -> p_phase pg2 = Waiting -> p_id pg1 <> p_id pg2.
+  outstanding pg1 = true -> outstanding pg2 = true -> p_id pg1 <> p_id pg2.
 Proof.
   intros HI Hy Hne H1 H2 W1 W2 E.
   apply (proj1 (id_equal_iff _ _ _ _ _ _ HI H1 H2)) in E.
@@ -137,34 +135,67 @@ Proof.
   revert E Hs L1 L2 Y1 Y2. generalize (p_seq pg1) (p_seq pg2) (cnt s). intros a b c. lia.
 Qed.
 
+Lemma mod_gap m d : 0 < d < 65536 ->
+  (m mod 65536 + 65536 - (m + d) mod 65536) mod 65536 = 65536 - d.
+Proof. intros H. lia. Qed.
+
+(* the next k identifiers are not held by an outstanding call, as long as the state stays young
+   after handing them out *)
+Lemma range_fresh n s q pg k : Inv2 n s ->
+  pget (pings s) q = Some pg -> cnt s + k - p_seq pg < 65536 -> k <= 65536 ->
+  in_range (p_id pg) (next s) k = false.
+Proof.
+  intros [Hn Hid _] H Y Hk. destruct (Hid _ _ H) as [-> L]. rewrite Hn. unfold in_range.
+  revert L Y. generalize (p_seq pg) (cnt s). intros a c L Y.
+  apply N.ltb_ge.
+  replace (n + c) with (n + a + (c - a)) by lia.
+  rewrite mod_gap by lia. lia.
+Qed.
+
 Lemma next_fresh n s q pg : Inv2 n s -> young s ->
-  pget (pings s) q = Some pg -> p_phase pg = Waiting -> next s <> p_id pg.
+  pget (pings s) q = Some pg -> outstanding pg = true -> next s <> p_id pg.
 Proof.
   intros [Hn Hid _] Hy H W. destruct (Hid _ _ H) as [-> L]. rewrite Hn.
   pose proof (Hy _ _ H W) as Y. revert L Y. generalize (p_seq pg) (cnt s). intros a c. lia.
 Qed.
 
 (* ------------------------------------------------------------------ *)
-(* every call that waits and has not been woken owns the table entry of its identifier *)
+(* every call that is outstanding and has not been woken owns the table entry of its identifier *)
 
 Definition has_entry (s : state) : Prop :=
-  forall p pg, pget (pings s) p = Some pg -> p_phase pg = Waiting -> p_recv pg = false ->
+  forall p pg, pget (pings s) p = Some pg -> outstanding pg = true -> p_recv pg = false ->
                tget (tbl s) (p_id pg) = Some p.
 
 Lemma has_entry_step fx n s e s' :
-  Inv s -> Inv2 n s -> young s -> has_entry s -> step fx s e = Ok s' -> has_entry s'.
+  Inv s -> Inv2 n s -> young s -> young s' -> has_entry s -> step fx s e = Ok s' -> has_entry s'.
 Proof.
-  intros HI HI2 Hy HE H. pose proof (inv_entry _ HI) as Hent.
+  intros HI HI2 Hy Hy' HE H. pose proof (inv_entry _ HI) as Hent.
+  pose proof (step_cnt _ _ _ _ H) as [Hcnt _].
+  pose proof (step_pget_fwd _ _ _ _ H) as Hfwd.
   unfold has_entry in *. step_cases H; cbn [tbl pings set_pings]; intros p0 pg0; rewrite ?pget_pset.
   - (* Begin *)
     destruct (Nat.eqb_spec p0 p).
-    + intros E W R. inversion E; subst; clear E. cbn [p_id p_phase] in *.
-      destruct ok; [|discriminate]. rewrite tget_tset, N.eqb_refl. reflexivity.
+    + intros E W R. inversion E; subst; clear E. cbn [p_id]. rewrite tget_tset, N.eqb_refl. reflexivity.
     + intros E W R. pose proof (HE _ _ E W R) as T. pose proof (next_fresh _ _ _ _ HI2 Hy E W) as F.
-      assert (T' : tget (tset (tbl s) (next s) p) (p_id pg0) = Some p0).
-      { rewrite tget_tset. destruct (N.eqb_spec (p_id pg0) (next s)); [congruence|exact T]. }
-      destruct ok; [exact T'|]. destruct fx; [|exact T'].
-      rewrite tget_tdel. destruct (N.eqb_spec (p_id pg0) (next s)); [congruence|exact T'].
+      rewrite tget_tset. destruct (N.eqb_spec (p_id pg0) (next s)); [congruence|exact T].
+  - (* Sent true *)
+    destruct (Nat.eqb_spec p0 p).
+    + intros E W R. inversion E; subst; clear E. cbn [p_id p_recv] in *. apply HE; auto.
+      unfold outstanding. rewrite Eph. reflexivity.
+    + apply HE.
+  - (* Sent false *)
+    destruct (Nat.eqb_spec p0 p).
+    + intros E W R. inversion E; subst. discriminate.
+    + intros E W R. pose proof (HE _ _ E W R) as T. destruct fx; [|exact T]. rewrite tget_tdel.
+      destruct (N.eqb_spec (p_id pg0) (p_id pgp)) as [Eid|]; [|exact T].
+      exfalso. eapply (ids_distinct n s p0 p); eauto. unfold outstanding. rewrite Eph. reflexivity.
+  - (* BulkFail *)
+    intros E W R. pose proof (HE _ _ E W R) as T. rewrite tget_tdel_range.
+    apply andb_true_iff in Ebk. destruct Ebk as [_ Ebk].
+    rewrite (range_fresh n s p0 pg0 nb HI2 E); [exact T| |lia].
+    cbn [cnt] in Hcnt.
+    destruct (Hfwd _ _ E) as (pg' & Hp' & _ & Hs' & _). cbn [pings] in Hp'. rewrite E in Hp'.
+    inversion Hp'; subst pg'. pose proof (Hy' _ _ E W) as Y. cbn [cnt] in Y. exact Y.
   - (* Notify, entry present *)
     destruct (Nat.eqb_spec p0 q).
     + intros E W R. inversion E; subst. discriminate.
@@ -175,13 +206,14 @@ Proof.
   - (* Timeout *)
     destruct (Nat.eqb_spec p0 p).
     + intros E W R. inversion E; subst; clear E. cbn [p_id p_recv] in *. apply HE; auto.
+      unfold outstanding. rewrite Eph. reflexivity.
     + apply HE.
   - (* End *)
     destruct (Nat.eqb_spec p0 p).
     + intros E W R. inversion E; subst. discriminate.
     + intros E W R. pose proof (HE _ _ E W R) as T. rewrite tget_tdel.
       destruct (N.eqb_spec (p_id pg0) (p_id pgp)) as [Eid|]; [|exact T].
-      exfalso. eapply (ids_distinct n s p0 p); eauto.
+      exfalso. eapply (ids_distinct n s p0 p); eauto. unfold outstanding. rewrite Eph. reflexivity.
 Qed.
 
 (* ------------------------------------------------------------------ *)
@@ -202,9 +234,9 @@ Proof.
   intros H. constructor; [apply Inv_init|apply Inv2_init|]; auto. intros p pg; cbn; discriminate.
 Qed.
 
-Lemma Good_step fx n s e s' : Good n s -> young s -> step fx s e = Ok s' -> Good n s'.
+Lemma Good_step fx n s e s' : Good n s -> young s -> young s' -> step fx s e = Ok s' -> Good n s'.
 Proof.
-  intros [A B C] Hy H. constructor; [eapply Inv_step|eapply Inv2_step|eapply has_entry_step]; eauto.
+  intros [A B C] Hy Hy' H. constructor; [eapply Inv_step|eapply Inv2_step|eapply has_entry_step]; eauto.
 Qed.
 
 Lemma Good_run fx n tr : forall s s', Good n s -> always fx young s tr -> run fx s tr = Ok s' ->
@@ -213,7 +245,8 @@ Proof.
   induction tr as [|e r IH]; intros s s' G A; cbn [run].
   - intros E; inversion E; subst. split; [exact G|]. eapply always_head; eauto.
   - destruct (step fx s e) eqn:E; try discriminate. intros H.
-    eapply IH; [|eapply always_step; eauto|exact H]. eapply Good_step; eauto. eapply always_head; eauto.
+    pose proof (always_step _ _ _ _ _ _ A E) as A'.
+    eapply IH; [|exact A'|exact H]. eapply Good_step; eauto; eapply always_head; eauto.
 Qed.
 
 Lemma always_app fx P tr1 : forall s tr2 s', always fx P s (tr1 ++ tr2) -> run fx s tr1 = Ok s' ->
@@ -225,6 +258,13 @@ Proof.
     eapply always_step; eauto.
 Qed.
 
+Lemma always_prefix fx P a : forall s b, always fx P s (a ++ b) -> always fx P s a.
+Proof.
+  induction a as [|e r IH]; intros s b A; cbn [app always] in *.
+  - split; [eapply always_head; eauto|exact I].
+  - destruct A as [A1 A2]. split; [exact A1|]. destruct (step fx s e); auto. eapply IH; eauto.
+Qed.
+
 Lemma run_app_inv fx a : forall s b s', run fx s (a ++ b) = Ok s' ->
   exists m, run fx s a = Ok m /\ run fx m b = Ok s'.
 Proof.
@@ -234,23 +274,30 @@ Proof.
 Qed.
 
 (* ------------------------------------------------------------------ *)
-(* msgRecv of a waiting call = "a Notify with its identifier has happened since it began" *)
+(* msgRecv of an outstanding call = "a Notify with its identifier has happened since it began" *)
 
 Definition tracks (p : pid) (i : id) (b : bool) (s : state) : Prop :=
-  exists pg, pget (pings s) p = Some pg /\ p_id pg = i /\ p_phase pg = Waiting /\ p_recv pg = b.
+  exists pg, pget (pings s) p = Some pg /\ p_id pg = i /\ outstanding pg = true /\ p_recv pg = b.
 
 Lemma tracks_step fx s e s' pp i b :
-  Inv s -> has_entry s -> tracks pp i b s -> step fx s e = Ok s' -> e <> End pp ->
+  Inv s -> has_entry s -> tracks pp i b s -> step fx s e = Ok s' ->
+  e <> End pp -> e <> Sent pp false ->
   tracks pp i (b || is_notify i e) s'.
 Proof.
-  intros HI HE (pg & Hp & Hid & Hw & Hr) H Hne. pose proof (inv_entry _ HI) as Hent.
+  intros HI HE (pg & Hp & Hid & Hw & Hr) H Hne Hne2. pose proof (inv_entry _ HI) as Hent.
   unfold tracks. step_cases H; cbn [pings set_pings is_notify]; rewrite ?pget_pset, ?orb_false_r.
   - destruct (Nat.eqb_spec pp p); [congruence|]. eauto 6.
+  - destruct (Nat.eqb_spec pp p).
+    + subst p. rewrite Ep in Hp. inversion Hp; subst pgp. eexists. split; [reflexivity|]. cbn. auto.
+    + eauto 6.
+  - destruct (Nat.eqb_spec pp p); [subst; congruence|]. eauto 6.
+  - eauto 6.
   - (* Notify j, entry of q *)
     destruct (Nat.eqb_spec pp q).
     + subst q. rewrite Epq in Hp. inversion Hp; subst pgq; clear Hp.
       destruct (Hent _ _ Eq) as (pg' & Hp' & Hid' & _). rewrite Epq in Hp'. inversion Hp'; subst pg'.
-      assert (Eji : j = i) by congruence. rewrite Eji, N.eqb_refl, orb_true_r. eexists. split; [reflexivity|]. cbn. auto.
+      assert (Eji : j = i) by congruence. rewrite Eji, N.eqb_refl, orb_true_r. eexists.
+      split; [reflexivity|]. cbn. auto.
     + exists pg. repeat split; auto.
       destruct (N.eqb_spec j i); [|rewrite orb_false_r; exact Hr].
       rewrite orb_true_r. destruct b; [exact Hr|]. exfalso.
@@ -268,17 +315,21 @@ Proof.
 Qed.
 
 Lemma tracks_run fx n mid : forall s s2 p i b,
-  Good n s -> always fx young s mid -> tracks p i b s -> run fx s mid = Ok s2 -> ~ In (End p) mid ->
+  Good n s -> always fx young s mid -> tracks p i b s -> run fx s mid = Ok s2 ->
+  ~ In (End p) mid -> ~ In (Sent p false) mid ->
   tracks p i (b || existsb (is_notify i) mid) s2.
 Proof.
   induction mid as [|e r IH]; intros s s2 p i b G A T; cbn [run existsb].
-  - intros E _; inversion E; subst. rewrite orb_false_r. exact T.
-  - destruct (step fx s e) eqn:E; try discriminate. intros H Hn.
-    rewrite orb_assoc. eapply IH; [| | |exact H|].
-    + eapply Good_step; eauto. eapply always_head; eauto.
-    + eapply always_step; eauto.
-    + eapply tracks_step; eauto; [apply G|apply G|]. intros ->. apply Hn. left. reflexivity.
+  - intros E _ _; inversion E; subst. rewrite orb_false_r. exact T.
+  - destruct (step fx s e) eqn:E; try discriminate. intros H Hn Hn2.
+    pose proof (always_step _ _ _ _ _ _ A E) as A'.
+    rewrite orb_assoc. eapply IH; [|exact A'| |exact H| |].
+    + eapply Good_step; eauto; eapply always_head; eauto.
+    + eapply tracks_step; eauto; [apply G|apply G| |].
+      * intros ->. apply Hn. left. reflexivity.
+      * intros ->. apply Hn2. left. reflexivity.
     + intros Hin. apply Hn. right. exact Hin.
+    + intros Hin. apply Hn2. right. exact Hin.
 Qed.
 
 (* a call that has returned keeps its result and identifier whatever happens later *)
@@ -293,6 +344,33 @@ Proof.
     destruct (IH _ _ _ _ _ Hp1 (Hr1 _ Hr) H) as (pg' & A & B & C). exists pg'. repeat split; auto. congruence.
 Qed.
 
+(* End p and Sent p false make p return; a returned call has no further End *)
+Lemma returns_step fx s e s' p : step fx s e = Ok s' -> e = End p \/ e = Sent p false ->
+  exists pg r, pget (pings s') p = Some pg /\ p_phase pg = Returned r.
+Proof.
+  intros H [->| ->]; cbn [step] in H; destruct (pget (pings s) p) as [pg|]; try discriminate;
+    destruct (p_phase pg); try discriminate.
+  - destruct (p_closed pg || p_fired pg); [|discriminate]. inversion H; subst. cbn [pings].
+    rewrite pget_pset, Nat.eqb_refl. eexists; eexists; split; reflexivity.
+  - inversion H; subst. cbn [pings]. rewrite pget_pset, Nat.eqb_refl. eexists; eexists; split; reflexivity.
+Qed.
+
+Lemma first_return fx mid : forall s s2 p, run fx s (mid ++ [End p]) = Ok s2 ->
+  ~ In (End p) mid /\ ~ In (Sent p false) mid.
+Proof.
+  intros s s2 p Hrun.
+  assert (G : forall e, e = End p \/ e = Sent p false -> ~ In e mid).
+  { intros e He Hin. apply in_split in Hin. destruct Hin as (a & b & ->).
+    rewrite <- app_assoc in Hrun. cbn [app] in Hrun.
+    destruct (run_app_inv _ _ _ _ _ Hrun) as (m & _ & Hr). cbn [run] in Hr.
+    destruct (step fx m e) as [m'| | |] eqn:E; try discriminate.
+    destruct (returns_step _ _ _ _ _ E He) as (pg & r & Hp & Hph).
+    destruct (run_app_inv _ _ _ _ _ Hr) as (m2 & Hb & Hend).
+    destruct (returned_stable _ _ _ _ _ _ _ Hp Hph Hb) as (pg2 & Hp2 & Hph2 & _).
+    cbn [run step] in Hend. rewrite Hp2, Hph2 in Hend. discriminate. }
+  split; apply G; auto.
+Qed.
+
 Lemma existsb_notify i l : existsb (is_notify i) l = true <-> In (Notify i) l.
 Proof.
   rewrite existsb_exists. split.
@@ -303,41 +381,37 @@ Qed.
 (* ------------------------------------------------------------------ *)
 (* C19_iff *)
 
-Lemma always_prefix fx P a : forall s b, always fx P s (a ++ b) -> always fx P s a.
-Proof.
-  induction a as [|e r IH]; intros s b A; cbn [app always] in *.
-  - split; [eapply always_head; eauto|exact I].
-  - destruct A as [A1 A2]. split; [exact A1|]. destruct (step fx s e); auto. eapply IH; eauto.
-Qed.
-
 Theorem ping_iff fx n pre p mid post s :
   n < 65536 ->
-  run fx (init n) (pre ++ Begin p true :: mid ++ End p :: post) = Ok s ->
-  always fx young (init n) (pre ++ Begin p true :: mid ++ End p :: post) ->
-  ~ In (End p) mid ->
+  run fx (init n) (pre ++ Begin p :: mid ++ End p :: post) = Ok s ->
+  always fx young (init n) (pre ++ Begin p :: mid ++ End p :: post) ->
   exists i, id_of s p = Some i /\
     (result_of s p = Some RNil <-> In (Notify i) mid) /\
     (result_of s p = Some RTimeout <-> ~ In (Notify i) mid).
 Proof.
-  intros Hn Hrun Hal Hnm.
+  intros Hn Hrun Hal.
   destruct (run_app_inv _ _ _ _ _ Hrun) as (s0 & R0 & Hrun1).
   pose proof (always_app _ _ _ _ _ _ Hal R0) as Hal0.
   pose proof (always_prefix _ _ _ _ _ Hal) as Hal_pre.
-  cbn [run] in Hrun1. destruct (step fx s0 (Begin p true)) as [s1| | |] eqn:E1; try discriminate.
+  cbn [run] in Hrun1. destruct (step fx s0 (Begin p)) as [s1| | |] eqn:E1; try discriminate.
   pose proof (always_step _ _ _ _ _ _ Hal0 E1) as Hal1.
   destruct (run_app_inv _ _ _ _ _ Hrun1) as (s2 & R2 & Hrun2).
   pose proof (always_prefix _ _ _ _ _ Hal1) as Hal_mid.
+  assert (Hfirst : ~ In (End p) mid /\ ~ In (Sent p false) mid).
+  { cbn [run] in Hrun2. destruct (step fx s2 (End p)) as [s3| | |] eqn:E3; try discriminate.
+    apply (first_return fx mid s1 s3 p). rewrite run_app, R2. cbn [run]. rewrite E3. reflexivity. }
+  destruct Hfirst as [Hnm Hnf].
   cbn [run] in Hrun2. destruct (step fx s2 (End p)) as [s3| | |] eqn:E3; try discriminate.
   destruct (Good_run _ _ _ _ _ (Good_init _ Hn) Hal_pre R0) as [G0 Y0].
-  pose proof (Good_step _ _ _ _ _ G0 Y0 E1) as G1.
+  pose proof (Good_step _ _ _ _ _ G0 Y0 (always_head _ _ _ _ Hal1) E1) as G1.
   assert (T1 : tracks p (next s0) false s1).
   { cbn [step] in E1. destruct (pget (pings s0) p) eqn:Ep; [discriminate|]. cbv zeta in E1.
     inversion E1; subst s1. unfold tracks. cbn [pings]. rewrite pget_pset, Nat.eqb_refl.
     eexists. split; [reflexivity|]. cbn. auto. }
-  pose proof (tracks_run _ _ _ _ _ _ _ _ G1 Hal_mid T1 R2 Hnm) as T2. cbn [orb] in T2.
+  pose proof (tracks_run _ _ _ _ _ _ _ _ G1 Hal_mid T1 R2 Hnm Hnf) as T2. cbn [orb] in T2.
   destruct T2 as (pg & Hp & Hid & Hw & Hr).
   (* End p *)
-  cbn [step] in E3. rewrite Hp, Hw in E3.
+  cbn [step] in E3. rewrite Hp in E3. destruct (p_phase pg) eqn:Eph; try discriminate.
   destruct (p_closed pg || p_fired pg); [|discriminate]. inversion E3; subst s3; clear E3.
   match type of Hrun2 with run _ ?st _ = _ =>
     assert (Hp3 : pget (pings st) p = Some (mkPing (p_id pg) (p_recv pg) (p_closed pg) (p_fired pg)
@@ -347,4 +421,24 @@ Proof.
   cbn [p_id] in Hif. exists (next s0). unfold id_of, result_of. rewrite Hpf, Hrf. cbn [option_map].
   split; [congruence|]. rewrite <- existsb_notify. rewrite Hr.
   destruct (existsb (is_notify (next s0)) mid); split; split; intros H; try discriminate; try reflexivity; try congruence.
+Qed.
+
+(* a call whose send fails returns that error, whatever was parsed meanwhile *)
+Theorem ping_send_error fx n pre p mid post s :
+  run fx (init n) (pre ++ Begin p :: mid ++ Sent p false :: post) = Ok s ->
+  result_of s p = Some RSendErr.
+Proof.
+  intros Hrun.
+  destruct (run_app_inv _ _ _ _ _ Hrun) as (s0 & _ & Hrun1).
+  cbn [run] in Hrun1. destruct (step fx s0 (Begin p)) as [s1| | |]; try discriminate.
+  destruct (run_app_inv _ _ _ _ _ Hrun1) as (s2 & _ & Hrun2).
+  cbn [run] in Hrun2. destruct (step fx s2 (Sent p false)) as [s3| | |] eqn:E3; try discriminate.
+  cbn [step] in E3. destruct (pget (pings s2) p) as [pg|] eqn:Hp; [|discriminate].
+  destruct (p_phase pg); try discriminate. inversion E3; subst s3; clear E3.
+  match type of Hrun2 with run _ ?st _ = _ =>
+    assert (Hp3 : pget (pings st) p = Some (mkPing (p_id pg) (p_recv pg) (p_closed pg) (p_fired pg)
+                   (Returned RSendErr) (p_seq pg)))
+      by (cbn [pings]; rewrite pget_pset, Nat.eqb_refl; reflexivity) end.
+  destruct (returned_stable _ _ _ _ _ _ _ Hp3 eq_refl Hrun2) as (pgf & Hpf & Hrf & _).
+  unfold result_of. rewrite Hpf, Hrf. reflexivity.
 Qed.
